@@ -42,7 +42,7 @@ else:
     ea = {a + b: [val(f'a{a}{b}{i}') for i in range(numel[a] * numel[b])] for a, b in r['ablocks']}
     eb = {k: [val(f'b{k}{i}') for i in range(numel[k])] for k in r['bblocks']}
     elems = [ea, eb]
-    ny = numel['x'] + numel['y']
+    ny = sum(numel.values())
 yel = [vals.get(f'y{i}', B.pytop) for i in range(ny)]
 try:
     items = R.run_dense(B, r, elems, yel) if entry == 'solve' else R.run_patterned(B, r, elems, yel) if entry == 'pt_solve' else R.run_multi(B, r, elems, yel)
